@@ -23,12 +23,27 @@ func tokenEqual(t1, t2 *token.Token) bool {
 
 	switch t1.Type {
 	case token.ALIAS_PARAMETER:
+		// parameters whose type could not be parsed carry no type information
+		if !hasTypeInfo(t1) || !hasTypeInfo(t2) {
+			return !hasTypeInfo(t1) && !hasTypeInfo(t2)
+		}
 		return ddptypes.ParamTypesEqual(*t1.AliasInfo, *t2.AliasInfo)
 	case token.IDENTIFIER, token.SYMBOL, token.INT, token.FLOAT, token.CHAR, token.STRING:
 		return t1.Literal == t2.Literal
 	}
 
 	return true
+}
+
+// reports wether the alias parameter t carries the type of its parameter
+// (it does not if that type could not be parsed)
+func hasTypeInfo(t *token.Token) bool {
+	if t.AliasInfo == nil || t.AliasInfo.Type == nil {
+		return false
+	}
+	// a list type may be left without its element type and a type alias without its underlying type
+	elementType := ddptypes.GetNestedListElementType(t.AliasInfo.Type)
+	return elementType != nil && ddptypes.GetUnderlying(elementType) != nil
 }
 
 // converts b to 1 or 0
@@ -51,6 +66,10 @@ func tokenLess(t1, t2 *token.Token) bool {
 
 	switch t1.Type {
 	case token.ALIAS_PARAMETER:
+		// parameters whose type could not be parsed carry no type information and are not ordered
+		if !hasTypeInfo(t1) || !hasTypeInfo(t2) {
+			return false
+		}
 		if t1.AliasInfo.IsReference != t2.AliasInfo.IsReference {
 			return boolToInt(t1.AliasInfo.IsReference) < boolToInt(t2.AliasInfo.IsReference)
 		}
